@@ -16,8 +16,12 @@ pub mod rng;
 pub mod sig;
 pub mod w_channel;
 pub mod w_close;
+pub mod w_default;
+pub mod w_flag;
+pub mod w_forbid;
 pub mod w_halflock;
 pub mod w_instance;
+pub mod w_pipe;
 pub mod w_iter;
 pub mod w_reg;
 
